@@ -206,7 +206,9 @@ theorem serializeVariant_np {fs : BL} {types offs cur : List Int} (idx : Nat) (h
       have := BL.get?_lt fs idx _ hget
       rw [List.getElem?_eq_none_iff] at hnone
       omega
-    · split <;> rfl
+    · split
+      · rfl
+      · split <;> rfl
 
 theorem union_row_np {p fs types offs cur} {i : Nat} {pc : B → R B} (hinv : NPInv (.union p fs types offs cur))
     (hpc : ∀ c, NPInv c → (pc c).isPanic = false) :
